@@ -69,6 +69,42 @@ Definition canon (c : result serr session) (m : dmap) : list (bool * N) :=
   map (fun kv => (false, snd kv)) (filter (fun kv => negb (mine kv)) m).
 Definition entry_eqb (a b : bool * N) : bool := Bool.eqb (fst a) (fst b) && (snd a =? snd b).
 
+(* --- histories against one real SessionTracker (harness.rs run_history) ---
+   keys are compared through the position of the first event of the history that names them *)
+Definition ev_tag (e : devent) : option dkey :=
+  match e with
+  | EMsg m | EAdd m | EPacket m | EQuery m => match session_of m with Ok s => Some (tag s) | _ => None end
+  | ESweep => None
+  end.
+Fixpoint key_index (k : dkey) (tags : list (option dkey)) (i : N) : N :=
+  match tags with
+  | [] => 99999
+  | Some k' :: r => if dkey_eqb k' k then i else key_index k r (i + 1)
+  | None :: r => key_index k r (i + 1)
+  end.
+Definition pair_eqb (a b : N * N) : bool := (fst a =? fst b) && (snd a =? snd b).
+(* the table as a set of (key index, expiry) *)
+Definition table_matches (tags : list (option dkey)) (m : dmap) (obs : list (N * N)) : bool :=
+  let l := map (fun kv => (key_index (fst kv) tags 0, snd kv)) m in
+  (N.of_nat (length l) =? N.of_nat (length obs)) && forallb (fun o => existsb (pair_eqb o) l) obs.
+(* auxiliary answer of a command, 0 = none: sweep -> 1 + dropped, lookup -> 1 + tracked *)
+Definition daux (now : N) (st : dmap) (e : devent) : N :=
+  match e with
+  | ESweep => 1 + (N.of_nat (length st) - N.of_nat (length (sweep now st)))
+  | EQuery m => match session_of m with Ok s => 1 + (if tracked (tag s) st then 1 else 0) | _ => 0 end
+  | _ => 0
+  end.
+Fixpoint history_matches (tags : list (option dkey)) (st : dmap) (h : list (N * devent)) (obs : list (N * list (N * N))) : bool :=
+  match h, obs with
+  | [], [] => true
+  | (t, e) :: h', (a, tab) :: obs' =>
+      let st' := dstep t st e in
+      (daux t st e =? a) && table_matches tags st' tab && history_matches tags st' h' obs'
+  | _, _ => false
+  end.
+Definition ptag (e : pevent) : option dkey :=
+  match e with PMsg m => match session_of m with Ok s => Some (tag s) | _ => None end | _ => None end.
+
 Inductive case :=
 | CSend (r : reg) (dur o : N) (obs : s2d)          (* sendToDetector(reg, dur, op) published obs *)
 | CAnnounce (r : reg) (upd : bool) (obs : s2d)     (* registerForDetector / updateInDetector published obs *)
@@ -76,6 +112,8 @@ Inductive case :=
 | CIngest (c : stcfg) (w : c2sw) (s : sel) (obs : list reg)   (* parseRegMessage returned obs *)
 | CNewReg (w : c2sw) (s : sel) (v6 : bool) (obs : option reg)  (* NewRegistrationC2SWrapper on the zero-filled message *)
 | CDetect (m : s2d) (conv : result serr session) (maps : list (list (bool * N)))
+| CHistory (h : list (N * devent)) (obs : list (N * list (N * N)))   (* real SessionTracker, answer + table after every command *)
+| CPubsub (h : list (N * pevent)) (obs : list (N * N))                (* real ingest_from_pubsub over a scripted connection: final table *)
 | CLifetimes (unused active : N)                   (* RegisteredDecoys.timeoutUnused / timeoutActive, ns *)
 | CProto (t : transport) (p : N).                  (* Transport.GetProto() *)
 
@@ -92,6 +130,8 @@ Definition chk (c : case) : bool :=
       conv_eqb mc conv &&
       list_eqb (list_eqb entry_eqb)
                (map (fun st => canon mc (detector_step NOW st m)) (start_maps mc)) maps
+  | CHistory h obs => history_matches (map (fun te => ev_tag (snd te)) h) [] h obs
+  | CPubsub h obs => table_matches (map (fun te => ptag (snd te)) h) (prun [] h) obs
   | CLifetimes u a => (station_lifetime false =? u) && (station_lifetime true =? a)
   | CProto t p => proto_eqb (transport_proto t) (wire_proto p)
   end.
